@@ -60,9 +60,6 @@ if tsp.plain(dp) != p0 or tsp.plain(dc) != p0 or tsp.plain(dpc) != p0:
 l0 = PP._format(d0)
 if PP._format(dp) != l0:
     return False                                   # positions are never printed
-la = PPA._format(d0)
-if PPA._format(dp) != la or PPA._format(tsp.plain_dict(dpc)) != la:
-    return False                                   # nor do hidden keys influence the layout (value alignment) of what is printed
 lc = PP._format(dpc)
 if PP._format(dc) != lc:
     return False
@@ -70,6 +67,18 @@ if PP._format(dc) != lc:
 # (line structure only); with symbolic texts the comment-carrying lines must be exactly plain line + comment
 v = {VMAP}
 return lc == {LCEXP}
+'''
+
+ALIGN_BODY = '''
+PPA = ALIGNED
+{BUILD}
+holes = {HOLES}
+sub = {SUB}
+d0 = M.transform(PIPE.parse(TEXT, holes))
+dpc = MPC.transform(PIPEC.parse(TEXT, holes, None, sub))
+la = PPA._format(d0)
+# hidden keys do not influence the layout (value alignment) of what is printed
+return PPA._format(tsp.plain_dict(dpc)) == la and PPA._format(d0) == la
 '''
 
 INFO = {
@@ -149,6 +158,10 @@ def obligations(tier, seed):
             # the witness itself fails with bookkeeping on: the obligation is that call
             from checks.tsp_common import failing_witness_source
             src = failing_witness_source(text, {"include_comments": True, "include_position": True})
+        asrc = PRELUDE + defs + harness("h", params, conj(pre), ALIGN_BODY.format(BUILD="\n".join(build), HOLES=holes1, SUB="{" + ", ".join(sub) + "}"))
+        obs.append(Ob(name=f"C13-ALIGN/{name}", source=asrc, pct=900, timeout=1000,
+                      meta={"desc": f"skeleton {name}: printed with align_values=True, the bookkeeping-on dictionary (positions kept, comments removed) gives the plain dictionary's lines",
+                            "functions": ["PrettyPrinter.compute_max_key_length", "PrettyPrinter._format"], "stubs": ["hole lexer", "comment substitution"]}))
         obs.append(Ob(name=f"C13-REL/{name}", source=src, pct=900, timeout=1000,
                       meta={"desc": f"skeleton {name}: plain / position / comments / both agree modulo hidden keys; prints agree modulo comment text",
                             "functions": ["Parser.parse", "CommentsTransformer", "MapfileTransformer", "PrettyPrinter._format"], "stubs": ["hole lexer", "comment substitution"]}))
